@@ -50,7 +50,8 @@ ASSUME = ["the recording cost and the tagging map wrapper (harness) attribute ea
           "apply to finite energies only (as in C01/C02)",
           "NaN-valued costs are outside the domain; inf is inside"]
 
-NESTED = {'NM': 'NelderMeadSimplexSolver', 'PW': 'PowellDirectionalSolver', 'DE': 'DifferentialEvolutionSolver'}
+NESTED = {'NM': 'NelderMeadSimplexSolver', 'PW': 'PowellDirectionalSolver', 'DE': 'DifferentialEvolutionSolver',
+          'DE2': 'DifferentialEvolutionSolver2'}
 TOL = dict(rel=1e-12, abs_=1e-12)
 
 
@@ -247,9 +248,9 @@ def ens_cases(draw, tier):
     else:
         c['npts'] = draw(st.sampled_from([1, 2, 3, 4, 4, 4, 5] + ([6, 8] if thorough else [])))
         c['rtol'] = draw(st.sampled_from([None, None, 0.5, -0.5]))
-    c['nested'] = draw(st.sampled_from(['NM', 'NM', 'PW', 'DE']))
+    c['nested'] = draw(st.sampled_from(['NM', 'NM', 'PW', 'DE', 'DE2']))
     c['as'] = draw(st.sampled_from(['class', 'class', 'instance']))
-    if c['nested'] == 'DE':
+    if c['nested'] in ('DE', 'DE2'):
         c['NP'] = draw(st.integers(max(4, dim), 6))
     c['tight'], c['clip'] = draw(bound_modes(c))
     # a generation limit is always given: an evaluation limit alone need not stop a member at all (points outside the
@@ -259,8 +260,8 @@ def ens_cases(draw, tier):
     c['maxfun'] = draw(st.sampled_from([10, 30, 80])) if lim in (0, 1) else None
     # CandidateRelativeTolerance compares the members of a population: documented as invalid for Powell (nPop = 1)
     c['term'] = draw(st.sampled_from(['never', 'never', 'cog', 'vtr', 'ncog', 'default'] + (['crt'] if c['nested'] != 'PW' else [])))
-    maps = ['serial', 'reversed', 'shuffled', 'python', 'default']
-    if c['nested'] != 'DE':
+    maps = ['serial', 'reversed', 'shuffled', 'python', 'default', 'copying']
+    if c['nested'] not in ('DE', 'DE2'):
         maps += ['threaded', 'threaded']
     if thorough:
         maps += ['forked']
@@ -314,11 +315,11 @@ def build(case):
     K = nested_class(case['nested'])
     if case['as'] == 'instance':
         # a pre-configured instance is used as given: it carries the settings (and the objective) itself
-        inst = K(dim, case['NP']) if case['nested'] == 'DE' else K(dim)
+        inst = K(dim, case['NP']) if case['nested'] in ('DE', 'DE2') else K(dim)
         configure(inst, case, con, pen)
         inst.SetObjective(cost)
         s.SetNestedSolver(inst)
-    elif case['nested'] == 'DE':
+    elif case['nested'] in ('DE', 'DE2'):
         s.SetNestedSolver(K, NP=case['NP'])      # always explicit: the keyword is stored on the class
     else:
         s.SetNestedSolver(K)
@@ -449,7 +450,7 @@ def run_ensemble(case, ctx):
                 ctx.expect(hcon.sat(x), 'C09.member', lambda: dict(where, note='cost evaluated at a point violating the constraint', x=x, member=t,
                                                                    constraint=case['constraint']))
     maxiter = case.get('maxiter'); maxfun = case.get('maxfun')
-    slack = {'NM': dim + 2, 'DE': case.get('NP', 0)}.get(case['nested'])     # most evaluations one iteration can make
+    slack = {'NM': dim + 2, 'DE': case.get('NP', 0), 'DE2': case.get('NP', 0)}.get(case['nested'])     # most evaluations one iteration can make
     for i, m in enumerate(members):
         g = int(m.generations); ev = int(m.evaluations)
         if maxiter is not None:
